@@ -1,7 +1,9 @@
 package codec
 
 import (
+	"bytes"
 	"fmt"
+	"reflect"
 	"sort"
 	"strings"
 	"testing"
@@ -41,6 +43,18 @@ func c05Check(enc string, msg any, ver kmip.ProtocolVersion) (sig string, ref *t
 	}
 	if err := safely(func() error { out = append([]byte{}, libMarshal(enc, msg)...); return nil }); err != nil {
 		return "encode-panic:" + enc, ref, nil, err
+	}
+	// the same message handed to the encoder by value instead of through a pointer: same bytes (what is written does not
+	// depend on whether the caller's variable is addressable)
+	var byValue []byte
+	if err := safely(func() error {
+		byValue = append([]byte{}, libMarshal(enc, reflect.ValueOf(msg).Elem().Interface())...)
+		return nil
+	}); err != nil {
+		return "encode-panic:" + enc + ":by-value", ref, nil, err
+	}
+	if !bytes.Equal(byValue, out) {
+		return "gating-differs:" + enc + ":by-value", ref, byValue, fmt.Errorf("%s encoding at version %s of the message passed BY VALUE differs from the encoding of the same message passed by pointer:\n by value   %x\n by pointer %x", enc, ver, byValue, out)
 	}
 	var parsed *ttlvref.Node
 	var perr error
